@@ -108,6 +108,17 @@ CHECKS = {
             'directory. Exploration: names and trees are unbounded.',
             'Does not generate a symlink/directory exactly at an output file name nor an empty directory with a matching name '
             '(behaviour not specified by the property).', 'DESIGN.md section 7 C20'),
+    'C09': ('F2 translator invariants + F1 driver (link and run every variant)',
+            'metamorphic PBT over option sets and translator build configurations: same module, different {-p,-f,-t,-m,-g,-d,-r} '
+            'and HAS_* builds => function-defined-exactly-once invariant, stand-alone compilability of every file, same function '
+            'texts, byte-identical reruns/thread counts/build variants, and the linked program reproduces the interpreter '
+            'transcript',
+            'Generated-input search over modules x option sets x translator builds: every variant is parsed (each function '
+            'defined exactly once across main/s*/d*, static only with an identical reference body), every file is compiled on its '
+            'own, all files are linked with the driver (gnu-ld: via ld -r -b binary) and run against the interpreter, and outputs '
+            'are compared byte for byte across reruns, thread counts and the no-pthread/no-getopt/no-libgen/no-strdup builds.',
+            'Worker interleavings are exercised with real threads (1..64 workers) and byte-identity of the result; owning the '
+            'schedule needs the vsched harness (DESIGN Appendix A).', 'DESIGN.md section 7 C09'),
 }
 
 NOT_YET = {}
